@@ -22,4 +22,11 @@
 
 int libwifi_parse_disassoc(struct libwifi_parsed_disassoc *disassoc, struct libwifi_frame *frame);
 
+/**
+ * Free any memory claimed by a libwifi_parsed_disassoc back to the system.
+ *
+ * @param disassoc A libwifi_parsed_disassoc
+ */
+void libwifi_free_parsed_disassoc(struct libwifi_parsed_disassoc *disassoc);
+
 #endif /* LIBWIFI_PARSE_DISASSOC_H */
